@@ -303,6 +303,7 @@ def run_one(spec):
 
         b, e = idx("HARNESS:mod-begin"), idx("HARNESS:mod-end")
         ev, xv = idx(ENTER_VERIFY), idx(EXIT_VERIFY)
+        res["verify_entered"] = ev is not None
         if not res["mapped"]:
             res["scope"] = "before-open"
         elif ev is None or ev > e:
@@ -486,6 +487,12 @@ def main():
         what = (f"{KIND_PATH[s['kind']]} ({s['kind']}) modified by '{s['mod']}' while wild was "
                 f"paused at '{s['point']}' (file mapped, before the verify phase; threads="
                 f"{s['threads']}, {'fork' if s['fork'] else 'no-fork'}): wild exited 0")
+        if s["fork"] and not r["verify_entered"]:
+            # The forked child never got as far as the verify phase (it died, e.g. SIGBUS on the
+            # truncated mapping) and the parent still reported success: one root cause for every
+            # input kind (the same one as C17), so one key.
+            key = "fork-mode:child-died-before-verify"
+            what += " although the forked child died before the verify phase"
         chk.violation(key, what, {"spec": {k: s[k] for k in
                                            ("kind", "mod", "point", "threads", "fork")},
                                   "argv": link_argv(s["threads"], s["fork"]),
